@@ -46,8 +46,7 @@ impl Client {
                 let db_box = dbs_maps.get(db_name);
                 match db_box {
                     Some(db) => {
-                        db.dec_connections();
-                        set_connection_counter(db, &dbs);
+                        change_connection_counter(db, &dbs, false);
                     }
                     _ => (),
                 }
@@ -543,6 +542,31 @@ impl Database {
             value_data.insert(key.to_string(), Value::from(value.to_string()));
         }
         Database::create_db_from_value_hash(name, value_data, metadata)
+    }
+
+    /// Changes the number of connections and publishes the new number while the counter is still
+    /// locked, otherwise two sessions that connect or leave at the same time can publish their
+    /// numbers in the opposite order of the one they counted in, and $connections stays wrong
+    pub fn change_connections_and_publish(
+        &self,
+        connected: bool,
+        publish: impl FnOnce(usize) -> Response,
+    ) -> Response {
+        let mut connections = self.lock_connections_for_update();
+        let current = *connections.get_mut();
+        let new_count = if connected {
+            current + 1
+        } else {
+            current.saturating_sub(1)
+        };
+        *connections.get_mut() = new_count;
+        publish(new_count)
+    }
+
+    fn lock_connections_for_update(&self) -> std::sync::RwLockWriteGuard<'_, AtomicUsize> {
+        self.connections
+            .write()
+            .expect("Error getting the db.connections.lock to update")
     }
 
     pub fn dec_connections(&self) {
